@@ -1,5 +1,6 @@
 import SFV.Proofs.GaussCompile
 import SFV.Proofs.GaussBlocks
+import SFV.Proofs.GaussMerge
 
 /-!
 # C11 — Gaussian-merging compilers return a program with the same net action
@@ -320,6 +321,25 @@ theorem merge_surgery_order_disp (l ms ds : List Cmd) (g d : Cmd) (out : List Cm
     out.idxOf d < out.idxOf b :=
   surgery_order_disp l ms ds g d out q hf hd hq hregs hb ha hbq ham hbm
 
+/-- **the surgery is sound (all three order theorems packaged).**  Under `SurgeryHyp` — `out` consists of exactly
+the staying and the emitted commands, all edges of `surgeryEdges l ms g ds` point forward in it, the emitted `ds`
+are displacement gates on different modes that merged commands act on, no measured-parameter dependencies — the
+output is obtained by two legal reorderings around "merged commands made adjacent and replaced by the emitted ones",
+for every circuit, every member set and every topological sort. -/
+theorem merge_surgery_legal (l ms ds : List Cmd) (g : Cmd) (out : List Cmd) (h : SurgeryHyp l ms ds g out) :
+    Legal l (preOf g ds out ++ membersOf l ms ++ postOf g ds out) ∧
+    Legal (preOf g ds out ++ (g :: ds) ++ postOf g ds out) out :=
+  ⟨h.legal_src, h.legal_out⟩
+
+/-- … hence, if the emitted commands mean the ordered product of the merged ones (`net_symplectic` for the inner
+`GaussianUnitary.compile`), the result of a merge step means the same as the circuit before it, in every monoid
+interpretation in which commands without a common wire commute. -/
+theorem merge_surgery_sound {M : Type} [Monoid M] (f : Cmd → M)
+    (hcomm : ∀ a b, ¬ dep a b → f a * f b = f b * f a) (l ms ds : List Cmd) (g : Cmd) (out : List Cmd)
+    (h : SurgeryHyp l ms ds g out) (hblk : sem f (g :: ds) = sem f (membersOf l ms)) :
+    sem f out = sem f l :=
+  h.sem_eq f hcomm hblk
+
 /-- **surgery, cancelling block.**  When the merged commands compose to the identity nothing is emitted and
 `new_DAG` has the edges `surgeryEdgesNil l ms` (staying edges, and every predecessor of a merged command connected
 to every successor of one).  In every list in which these edges point forward, two commands that stay and share a
@@ -427,5 +447,37 @@ example : (∀ a ∈ exAffine, ∀ m ∈ a.regs, m ∈ List.range 10) ∧ (∀ a
 /-- the surgery edges of the hybrid example: the Kerr gate is connected to the block before and after it -/
 example : forward (surgeryEdges mSrc [mSrc[4]!, mSrc[5]!] mOut[2]! [mOut[3]!])
     [mSrc[0]!, mSrc[1]!, mSrc[2]!, mSrc[3]!, mOut[2]!, mOut[3]!] = true := by decide
+
+/-- `SurgeryHyp` is met by the second merge of the hybrid example (`Rgate|1; Dgate|1` after the Kerr gate replaced
+by `GaussianTransform|1; Dgate|1`) -/
+def hL : List Cmd := [mOut[0]!, mSrc[3]!, mSrc[4]!, mSrc[5]!]
+example : SurgeryHyp hL [mSrc[4]!, mSrc[5]!] [mOut[3]!] mOut[2]! mOut where
+  nodup := by decide
+  fresh := by decide
+  outNodup := by decide
+  esNodup := by decide
+  fwd := by decide
+  dsIndep := by decide
+  noDeps := by decide
+  dsWire := by
+    intro d hd
+    simp only [List.mem_singleton] at hd
+    subst hd
+    exact ⟨1, by decide, by decide, mSrc[4]!, by decide, by decide, by decide⟩
+  mem_out := by
+    intro c
+    constructor
+    · intro hc
+      simp only [mOut, List.mem_cons, List.not_mem_nil, or_false] at hc
+      rcases hc with rfl | rfl | rfl | rfl <;> decide
+    · rintro (⟨hc, hm⟩ | hc)
+      · simp only [hL, List.mem_cons, List.not_mem_nil, or_false] at hc
+        rcases hc with rfl | rfl | rfl | rfl
+        · decide
+        · decide
+        · exact absurd (by decide) hm
+        · exact absurd (by decide) hm
+      · simp only [List.mem_cons, List.not_mem_nil, or_false] at hc
+        rcases hc with rfl | rfl <;> decide
 
 end SFV.C11
